@@ -126,6 +126,7 @@ class Unit:
         self.func_spans = {}     # outname -> (first_line, last_line) 1-based in output
         self.labels = {}         # output line -> (props, label)
         self.dropped = []
+        self.lost = []
         self.errors = []
 
     def src(self, alias):
@@ -542,7 +543,16 @@ def assemble(tmpl_path, out_path, mutation=None):
             put(o)
         else:
             first = len(lines) + 1
-            for p in build_func(unit, o, grws):
+            try:
+                pieces = build_func(unit, o, grws)
+            except ExtractError as e:
+                # a leaf region / function whose anchor is lost is left out and reported: the rest of the unit is still
+                # verified (a failing obligation there is a sound violation); the run as a whole can no longer end OK
+                if getattr(o, 'mutation', None) or not os.environ.get('VK_SKIP_LOST', '1') == '1':
+                    raise
+                unit.lost.append((o.outname, str(e)))
+                continue
+            for p in pieces:
                 put(p)
             unit.func_spans[o.outname] = (first, len(lines))
     for k, tl in enumerate(lines):
